@@ -42,6 +42,46 @@ Theorem host_failure_publishes_wills : ∀ cl o d clk, (o < length (cl_nodes cl)
 Proof. exact host_failure_wills. Qed.
 Print Assumptions host_failure_publishes_wills.
 
+From Wasp Require Import Proofs.IdPoolFacts Proofs.IdsFacts.
+(** The same in the two steps in which nodes.go performs it: [peer_notice] is NotifyGossipLeave up
+    to its return (subscriptions of the failed peer removed, wills appended), [peer_reap] the
+    removal of the failed peer's session records, which a goroutine performs three seconds later.
+    Noticing publishes the wills of every session of the failed peer the survivor lists — and
+    removes no session record, neither its own copy nor (by gossip of what it queued so far) anybody
+    else's: a second survivor that hears from the first before it notices the failure itself
+    still lists the sessions and publishes their wills to its own subscribers. *)
+Theorem host_failure_is_notice_then_reap : ∀ cl o d clk,
+  peer_leave cl o d clk = (peer_reap (peer_notice cl o d clk).1 o d clk, (peer_notice cl o d clk).2).
+Proof. exact peer_leave_split. Qed.
+Print Assumptions host_failure_is_notice_then_reap.
+Theorem noticing_publishes_wills : ∀ cl o d clk, (o < length (cl_nodes cl))%nat → n_fail (getn cl o) = 0%nat →
+  let pid := Z.of_nat (S d) in
+  let n1 := mutate (getn cl o) (sub_delete_peer (n_d (getn cl o)) pid clk) in
+  (peer_notice cl o d clk).2 = map (λ w, Appended o (l_topic w) (l_payload w) (l_qos w) (l_retain w)) (peer_wills n1 pid).
+Proof. exact notice_publishes_wills. Qed.
+Print Assumptions noticing_publishes_wills.
+Theorem noticing_removes_no_record : ∀ cl o d clk i, (o < length (cl_nodes cl))%nat →
+  d_sess (n_d (getn (peer_notice cl o d clk).1 i)) = d_sess (n_d (getn cl i)).
+Proof. exact notice_keeps_records. Qed.
+Print Assumptions noticing_removes_no_record.
+
+(** three nodes, the host (node 2) fails, node 0 notices first and its broadcasts reach node 1
+    before node 1 notices: both publish the will, each to its own subscriber; the records go with
+    the delayed removals *)
+Example c13_two_survivors :
+  let run := fold_left (λ st o, let r := step [] st.1 o in (r.1, (st.2 ++ [r.2])%list)) in
+  let ops := [EConnect 0%nat "w0" "c0" "" "" 60 None 10; ESubscribe "w0" 1 [("will/#", 0)] 20;
+              EConnect 1%nat "w1" "c1" "" "" 60 None 30; ESubscribe "w1" 1 [("#", 0)] 40;
+              EConnect 2%nat "dying" "cd" "" "" 60 (Some (Publish "will/t" "gone" 0 false false)) 50;
+              EGossip 2%nat 0%nat; EGossip 2%nat 1%nat;
+              EPeerNotice 0%nat 2%nat 60; EGossip 0%nat 1%nat; EPeerNotice 1%nat 2%nat 70;
+              EPeerReap 0%nat 2%nat 80; EPeerReap 1%nat 2%nat 80; ECheck 1%nat] in
+  let o := (run ops (cnew 3%nat, [])).2 in
+  nth 7%nat o [] = [Appended 0%nat "_default/will/t" "gone" 0 false; Out "w0" (OPublish "will/t" "gone" 0 false false 0)]
+  ∧ nth 9%nat o [] = [Appended 1%nat "_default/will/t" "gone" 0 false; Out "w1" (OPublish "will/t" "gone" 0 false false 0)]
+  ∧ match nth 12%nat o [] with [Listed _ ss _ _ _] => map m_sid ss = ["s002"; "s001"] | _ => False end.
+Proof. vm_compute. done. Qed.
+
 (** host failure: each survivor appends to its own log one copy of the will of every listed
     session of the failed peer, under that session's mount point (non-vacuity example; the
     general statement is the definition of [peer_leave], compared with nodes.go by the harness) *)
